@@ -97,6 +97,7 @@ pub fn configs(tier: Tier, judge: u32, liveness: bool) -> Vec<OutCfg> {
                             inbound: 0,
                             may_close: false,
                             inbound_faults: false,
+                            cancel_inflight: false,
                         });
                     }
                 }
@@ -119,6 +120,7 @@ pub fn configs(tier: Tier, judge: u32, liveness: bool) -> Vec<OutCfg> {
                     inbound: 0,
                     may_close: false,
                     inbound_faults: false,
+                    cancel_inflight: false,
                 });
             }
         }
@@ -138,6 +140,7 @@ pub fn configs(tier: Tier, judge: u32, liveness: bool) -> Vec<OutCfg> {
                 inbound: 0,
                 may_close: false,
                 inbound_faults: false,
+                cancel_inflight: false,
             });
         }
         // streamed QoS 1 publishes occupy a window slot like any other publish
@@ -156,6 +159,7 @@ pub fn configs(tier: Tier, judge: u32, liveness: bool) -> Vec<OutCfg> {
                 inbound: 0,
                 may_close: false,
                 inbound_faults: false,
+                cancel_inflight: false,
             });
         }
         // limit + 3 senders at limit 1, one of them cancelled: a wake-up that a finished ready() future or a
@@ -181,6 +185,35 @@ pub fn configs(tier: Tier, judge: u32, liveness: bool) -> Vec<OutCfg> {
                     inbound: 0,
                     may_close: false,
                     inbound_faults: false,
+                    cancel_inflight: false,
+                });
+            }
+        }
+        // send futures dropped after their packet was written (statement: "dropped send futures"): the slot stays
+        // taken until the peer's final acknowledgement - for an abandoned QoS 2 send for ever, since nobody sends
+        // PUBREL (seeded change C05_r4 freed it on PUBREC). Safety only, hence not part of the liveness configs.
+        if !liveness {
+            let mut sets = vec![(1u16, vec![SK::Q2Rel, SK::Q1]), (1, vec![SK::Q1, SK::Q1Loop(2)]), (2, vec![SK::Q2Rel, SK::Q1, SK::Q1])];
+            if tier == Tier::Thorough {
+                sets.push((1, vec![SK::Q2Rel, SK::Q2Rel, SK::Q1]));
+                sets.push((2, vec![SK::Q2Rel, SK::Q2Rel, SK::Q1, SK::Q1Loop(2)]));
+            }
+            for (cap, senders) in sets {
+                v.push(OutCfg {
+                    ep: ep_for(EpCfg::new(ver, role), cap, false),
+                    cap,
+                    senders,
+                    cancels: if tier == Tier::Quick { 1 } else { 2 },
+                    batch: false,
+                    bp: 0,
+                    peer: PeerMode::Correct,
+                    judge,
+                    prologue: 0,
+                    peer_max_packet: 0,
+                    inbound: 0,
+                    may_close: false,
+                    inbound_faults: false,
+                    cancel_inflight: true,
                 });
             }
         }
@@ -209,6 +242,7 @@ pub fn configs(tier: Tier, judge: u32, liveness: bool) -> Vec<OutCfg> {
                     inbound: 0,
                     may_close: false,
                     inbound_faults: false,
+                    cancel_inflight: false,
                 });
             }
         }
@@ -224,7 +258,7 @@ pub fn run(tier: Tier) -> i32 {
         ck.explore::<Out>("outbound", i, c, &ecfg);
     }
     ck.rule = format!(
-        "real sink + peer; per role (v3/v5 x server/client) and send limit 1..2 (quick) / 1..4 (thorough; limit 4 with three fixed sender sets), every multiset of cap+1 (quick) / cap+1..cap+2 (thorough) application tasks over {{send_at_least_once, two back-to-back send_at_least_once, send_exactly_once+release, (client) subscribe}}; events Start(j), PeerAck (oldest, correct type), PeerAckBatch, Cancel(j), window close/open; all orders at quiescence + up to {} injections while tasks are runnable; invariant after every poll and event: (QoS>0 PUBLISH received by peer) - (PUBACK/PUBCOMP sent by peer) <= limit. distinct_nontrivial = distinct final observations of executions in which a sender was parked on the window",
+        "real sink + peer; per role (v3/v5 x server/client) and send limit 1..2 (quick) / 1..4 (thorough; limit 4 with three fixed sender sets), every multiset of cap+1 (quick) / cap+1..cap+2 (thorough) application tasks over {{send_at_least_once, two back-to-back send_at_least_once, send_exactly_once+release, (client) subscribe}}; events Start(j), PeerAck (oldest, correct type), PeerAckBatch, Cancel(j) (parked senders; in dedicated configurations also senders whose packet is already written and that await the acknowledgement - an abandoned QoS 2 send keeps its slot), window close/open; all orders at quiescence + up to {} injections while tasks are runnable; invariant after every poll and event: (QoS>0 PUBLISH received by peer) - (PUBACK/PUBCOMP sent by peer) <= limit. distinct_nontrivial = distinct final observations of executions in which a sender was parked on the window",
         ecfg.max_dev
     );
     ck.assumptions = vec![
